@@ -33,6 +33,8 @@ for sid in sorted(os.listdir(os.path.join(ROOT, "seeded"))):
     verdict = "not detected"
     if viol:
         verdict = "detected, failing input replayed" if "no-failing-input-found" not in viol[0] else "detected (no-failing-input-found)"
+    if "first_try" not in meta and meta.get("detected_by") and sid[-1] in "klm":   # round 5 was run unbiased (tag pre-round5)
+        meta["first_try"] = meta["detected_by"].get("verdict", "")   # the verdict before any machinery was changed in response
     meta["detected_by"] = {"check": "./check %s --tier quick" % prop, "verdict": verdict, "exit_code": p.returncode, "first_failing_input": why}
     json.dump(meta, open(os.path.join(d, "meta.json"), "w"), indent=1)
     rows.append((sid, prop, verdict, why))
